@@ -28,6 +28,7 @@ type world struct {
 	ctorD  []int                     // minimal nesting depth needed to build a value
 	ifD    []int
 	ifBest []int // ctor with minimal depth per interface
+	ifImpl map[int][]int // interface -> constructors whose Go type implements it
 	extra  []string
 }
 
@@ -58,6 +59,48 @@ func newWorld(s *Schema) *world {
 		}
 	}
 	sort.Slice(w.inMap, func(i, j int) bool { return w.inMap[i].Idx < w.inMap[j].Idx })
+	// Members of every interface according to the Go type system (which *T implement XClass),
+	// independent of the switch in DecodeX that the translator read.
+	w.ifImpl = map[int][]int{}
+	ifType := map[int]reflect.Type{}
+	var findIf func(t *Ty, rt reflect.Type)
+	findIf = func(t *Ty, rt reflect.Type) {
+		switch t.K {
+		case "iface":
+			if rt.Kind() == reflect.Interface {
+				ifType[t.Ref] = rt
+			}
+		case "vec":
+			if rt.Kind() == reflect.Slice {
+				findIf(t.Elem, rt.Elem())
+			}
+		}
+	}
+	for _, c := range w.inMap {
+		rt := reflect.TypeOf(w.newObj[c.Idx]()).Elem()
+		if rt.NumField() != len(c.Fields) {
+			continue
+		}
+		for i, f := range c.Fields {
+			findIf(f.Ty, rt.Field(i).Type)
+		}
+	}
+	for idx, it := range ifType {
+		for _, c := range w.inMap {
+			if c.Pkg != s.Ifaces[idx].Pkg {
+				continue
+			}
+			if reflect.PointerTo(reflect.TypeOf(w.newObj[c.Idx]()).Elem()).Implements(it) {
+				w.ifImpl[idx] = append(w.ifImpl[idx], c.Idx)
+			}
+		}
+		a := append([]int{}, s.Ifaces[idx].Refs...)
+		sort.Ints(a)
+		if fmt.Sprint(a) != fmt.Sprint(w.ifImpl[idx]) {
+			w.extra = append(w.extra, fmt.Sprintf("interface %s.%s: Decode%s switches over constructors %v, the Go types implementing it are %v",
+				s.Ifaces[idx].Pkg, s.Ifaces[idx].GoName, s.Ifaces[idx].Func, a, w.ifImpl[idx]))
+		}
+	}
 	// minimal depths (least fixpoint)
 	w.ctorD = make([]int, len(s.Ctors))
 	w.ifD = make([]int, len(s.Ifaces))
@@ -84,8 +127,8 @@ func newWorld(s *Schema) *world {
 	for changed := true; changed; {
 		changed = false
 		for _, c := range s.Ctors {
-			if c.Bad != "" && len(c.Fields) == 0 {
-				continue
+			if fn, ok := w.newObj[c.Idx]; ok && reflect.TypeOf(fn()).Elem().NumField() != len(c.Fields) {
+				continue // translation stopped inside this constructor: no value can be built
 			}
 			d := 0
 			for _, f := range c.Fields {
@@ -217,7 +260,11 @@ func (g *gen) fillTy(t *Ty, fv reflect.Value, depth int) {
 		} else {
 			// any constructor that can still be completed
 			for tries := 0; ; tries++ {
-				pick = ifc.Refs[r.Intn(len(ifc.Refs))]
+				members := ifc.Refs
+				if m := g.w.ifImpl[t.Ref]; len(m) > 0 {
+					members = m
+				}
+				pick = members[r.Intn(len(members))]
 				if _, ok := g.w.newObj[pick]; ok && g.w.ctorD[pick] < inf {
 					break
 				}
